@@ -664,6 +664,8 @@ func suiteCrash(seed uint64, tier string) *Report {
 		ctx     *crashCtx
 		segSize int
 		ops     []string
+		cm      []*cmCase
+		cmStats map[string]int
 	}
 	results := make([]res, nw)
 	forks := make([]*Rng, nw)
@@ -682,13 +684,25 @@ func suiteCrash(seed uint64, tier string) *Report {
 			segSize, ops := genCrashWorkload(cr)
 			ctx := &crashCtx{dist: map[string]int{}, openWriterDirSyncs: simfs.OpenWriterDirSyncs, segSize: segSize}
 			ctx.exploreCrashes(simfs.New(), &refLog{stable: map[string]string{}}, ops, cr, depth, nil, true)
-			results[k] = res{ctx, segSize, ops}
+			// correspondence with Model/Crash.lean on the same workload
+			var cm []*cmCase
+			st := map[string]int{}
+			crashModelTie(simfs.New(), nil, segSize, ops, cr.Fork(), 2, nil, simfs.OpenWriterDirSyncs, &cm, st)
+			results[k] = res{ctx, segSize, ops, cm, st}
 		}(k)
 	}
 	wg.Wait()
 	rep.Dist["open_writer_dirsyncs"] = map[bool]int{false: 0, true: 1}[simfs.OpenWriterDirSyncs]
 	shapes := map[string]bool{}
 	images := 0
+	var allCM []*cmCase
+	for _, rs := range results {
+		allCM = append(allCM, rs.cm...)
+		for k, v := range rs.cmStats {
+			rep.Dist["crash_model:"+k] += v
+		}
+	}
+	runCrashModelCases(allCM, rep)
 	for _, rs := range results {
 		rep.Cases++
 		rep.Ops += len(rs.ops)
